@@ -304,7 +304,8 @@ pub fn record_samples(output: &str) {
         // (one set in nine has a joint whose arc is narrower than any angular resolution: 1e-11 .. 1e-7 rad; the same
         //  AU values, so the model sees from = to and accepts whatever the library's own `compliant` accepts)
         let tiny = n % 9 == 4;
-        if tiny { let j = n % 6; tr[j] = fr[j] + 10f64.powf(r.gen_range(-11.0..-7.0)); }
+        let mut to = to;
+        if tiny { let j = n % 6; tr[j] = fr[j] + 10f64.powf(r.gen_range(-11.0..-7.0)); to[j] = from[j]; }
         // (sets that are followed by a narrower sibling have their limits on a grid of 2^-24 rad, so that the centres of
         //  both sets are the very same floating point numbers)
         let with_sibling = n % 4 == 1 && !tiny;
@@ -331,10 +332,13 @@ pub fn record_samples(output: &str) {
                     Some(q) => {
                         // accepted by `compliant` and kept by `filter` of the same constraints
                         let acc = c.compliant(&q) && c.filter(&vec![q]).len() == 1;
-                        out.put(json!({"ev": "sample", "from": from, "to": to, "a": au6(&q), "acc": acc, "outcome": "ok", "ctor": ctor, "tiny": tiny}));
+                        let two_pi = 2.0 * std::f64::consts::PI;
+                        let circ = |x: f64| { let d = x.rem_euclid(two_pi); d.min(two_pi - d) };
+                        let edge = (0..6).any(|j| c.from[j] != c.to[j] && (circ(q[j] - c.from[j]) < 1e-14 || circ(q[j] - c.to[j]) < 1e-14));
+                        out.put(json!({"ev": "sample", "from": from, "to": to, "a": au6(&q), "acc": acc, "edge": edge, "outcome": "ok", "ctor": ctor, "tiny": tiny}));
                     }
                     None => {
-                        out.put(json!({"ev": "sample", "from": from, "to": to, "a": [0,0,0,0,0,0], "acc": false, "outcome": "panic", "ctor": ctor, "tiny": tiny}));
+                        out.put(json!({"ev": "sample", "from": from, "to": to, "a": [0,0,0,0,0,0], "acc": false, "edge": false, "outcome": "panic", "ctor": ctor, "tiny": tiny}));
                         break;
                     }
                 }
